@@ -194,7 +194,9 @@ def stepWsKa (f : List String) : String :=
   | ["k", cp, cw, spw, sp, sw] =>
     if bothAlive (clientCfg cp.toNat! cw.toNat!) (serverCfg spw.toNat! sp.toNat! sw.toNat!) then "alive" else "dropped"
   | ["d", spw, sp, sw] =>
-    if (readWait (serverCfg spw.toNat! sp.toNat! sw.toNat!)).isSome then "detected" else "kept"
+    match readWait (serverCfg spw.toNat! sp.toNat! sw.toNat!) with
+    | some w => s!"detected:{w}"
+    | none => "kept"
   | _ => "bad-op"
 
 end Ocpp.Drv
